@@ -34,6 +34,29 @@ def decode(v):
     return f"?{v!r}"
 
 
+def value_of(tok, dp):
+    """the number a parameter token stands for in the device-parameter mapping dp"""
+    import re
+    m = re.fullmatch(r"(\w+)\[(\d+)\](?:\[(\d+)\])?", tok)
+    name, i, j = m.group(1), int(m.group(2)), m.group(3)
+    if name == "dur":
+        return float(i * dp["dt"][0])
+    return float(dp[name][i][int(j)]) if j is not None else float(dp[name][i])
+
+
+def numeric_params_with_zeros(rng, maxlabel):
+    """device parameters with arbitrary real values in which entries are exactly 0.0 with probability 1/3 (an error probability or a
+    duration of exactly zero is a valid calibration value, and direction-dependent tables routinely hold zeros)"""
+    n = maxlabel + 1
+    def val(lo, hi):
+        return 0.0 if rng.random() < 1 / 3 else rng.uniform(lo, hi)
+    return {"T1": np.array([val(1e-5, 3e-4) for _ in range(n)]), "T2": np.array([val(1e-5, 3e-4) for _ in range(n)]),
+            "p": np.array([val(1e-5, 1e-2) for _ in range(n)]), "rout": np.array([val(1e-3, 0.1) for _ in range(n)]),
+            "tm": np.array([val(1e-7, 5e-6) for _ in range(n)]),
+            "p_int": np.array([[val(1e-3, 5e-2) for _ in range(n)] for _ in range(n)]),
+            "t_int": np.array([[val(1e-7, 9e-7) for _ in range(n)] for _ in range(n)]), "dt": [2.2e-10], "metadata": {}}
+
+
 def units(ph):
     u = ph / UNIT
     if abs(u - round(u)) > 1e-6:
@@ -46,16 +69,19 @@ class RecGates:
     """records every gate-set call; returns token matrices (tok k = (k + 0.5) * identity). The record lives on the class,
     so deep copies of the instance (one per shot) share it."""
     calls = []
+    raw = []
     PHASES = {"X": 1, "SX": 1, "CNOT": 2, "CNOT_inv": 2, "ECR": 2, "ECR_inv": 2, "relaxation": 0, "bitflip": 0, "depolarizing": 0}
 
     @classmethod
     def clear(cls):
         cls.calls = []
+        cls.raw = []
 
     def _rec(self, method, dim, args):
         k = len(RecGates.calls)
         np_ = RecGates.PHASES[method]
         RecGates.calls.append({"m": method, "ph": [units(a) for a in args[:np_]], "pars": [decode(a) for a in args[np_:]]})
+        RecGates.raw.append([float(a) for a in args[np_:]])        # the numbers themselves (same index as calls)
         return (k + 0.5) * np.eye(dim, dtype=complex)     # a scaled identity: decodable, and the state stays non-zero
 
     def X(self, *a): return self._rec("X", 2, a)
@@ -168,7 +194,8 @@ def observe_run(cls, ops, nqubit, gates=None, psi0=None, device_param=None, shot
         first = len(RecGates.calls)
         orig_apply(data, circ, dpar, lay)
         shot_snap = {"state": state_of(circ), "layout": [int(x) for x in lay], "depth": getattr(circ, "depth", None),
-                     "nqubit": circ.nqubit, "calls": list(RecGates.calls[first:]), "first_call": first}
+                     "nqubit": circ.nqubit, "calls": list(RecGates.calls[first:]), "first_call": first,
+                     "raw": list(RecGates.raw[first:])}
         snap.setdefault("shots", []).append(shot_snap)
         if "state" not in snap:                 # the first shot is the one compared with the model
             snap.update({k: shot_snap[k] for k in ("state", "layout", "depth", "nqubit")})
@@ -185,6 +212,7 @@ def observe_run(cls, ops, nqubit, gates=None, psi0=None, device_param=None, shot
         S._apply_gates_on_circuit = orig_apply
     out = dict(snap)
     out["calls"] = list(snap["shots"][0]["calls"]) if snap.get("shots") else list(RecGates.calls)
+    out["raw"] = list(snap["shots"][0]["raw"]) if snap.get("shots") else list(RecGates.raw)
     out["result"] = res
     return out
 
